@@ -195,6 +195,13 @@ def dump_quantity(quantity, version=LATEST_VER):
 
 
 def dump_decimal(decimal, version=LATEST_VER):
+    # Non-finite numbers have their own spelling in ZINC
+    if decimal != decimal:
+        return 'NaN'
+    elif decimal == float('inf'):
+        return 'INF'
+    elif decimal == -float('inf'):
+        return '-INF'
     return str(decimal)
 
 
